@@ -959,6 +959,17 @@ func (p *PubSub) processLoop(ctx context.Context) {
 					in.s.Conn().RemotePeer(), in.s.Protocol())
 			}
 		case msg := <-p.sendMsg:
+			// the blacklist may have changed while the message was in the validation pipeline
+			if msg.ReceivedFrom != p.host.ID() {
+				if p.blacklist.Contains(msg.ReceivedFrom) {
+					p.tracer.RejectMessage(msg, RejectBlacklstedPeer)
+					continue
+				}
+				if p.blacklist.Contains(msg.GetFrom()) {
+					p.tracer.RejectMessage(msg, RejectBlacklistedSource)
+					continue
+				}
+			}
 			p.publishMessage(msg)
 
 		case batchAndOpts := <-p.sendMessageBatch:
